@@ -58,8 +58,11 @@ def minimise_violation(mod, case, key):
     return minimise(case, steps, same, max_evals=getattr(mod, "SHRINK_EVALS", 300), max_seconds=getattr(mod, "SHRINK_SECONDS", 30.0))
 
 
-def make_replay(mod, prop, case, v, run_seed, index, orig_case, evals):
-    res = execute_guarded(mod, case, trace=True)
+def make_replay(mod, prop, case, v, run_seed, index, orig_case, evals, orig_res=None):
+    if orig_res is not None and case is orig_case:
+        res = orig_res  # nothing was minimised: do not pay for a second execution (statistical cases are expensive)
+    else:
+        res = execute_guarded(mod, case, trace=True)
     vv = [x for x in res["violations"] if sig_key(x["sig"]) == sig_key(v["sig"])]
     return {
         "property": prop,
@@ -130,7 +133,7 @@ def run_shard(job):
             if slot is None:
                 try:
                     mcase, evals = minimise_violation(mod, case, key)
-                    rep = make_replay(mod, prop, mcase, v, run_seed, i, case, evals)
+                    rep = make_replay(mod, prop, mcase, v, run_seed, i, case, evals, orig_res=res)
                 except Exception as ex:
                     out["harness_errors"].append({"index": i, "error": "minimise: " + repr(ex), "tb": traceback.format_exc()[-1500:]})
                     continue
